@@ -10,6 +10,7 @@ with an oracle written from the property statement (split the source on newlines
 number from start_line, clip the range) that shares nothing with the Lean model.
 """
 import dataclasses
+import textwrap
 import io
 import itertools
 import linecache
@@ -24,7 +25,12 @@ PROPERTY = "C17"
 
 # CODE VARIANT FLAGS  (value = what /repo does now: both defects are repaired; 1 = rich 9.10.0 as found; see Model/Syntax.lean)
 # (the environment overrides exist only to run against another checkout: VERIF_REPO=<worktree> VERIF_C17_STRIPNL=1 VERIF_C17_SKIP_RAISES=1)
+try:  # the variant flags of the Text / Wrap models (C05/C02), whose `Text.wrap` model folds the word-wrapped lines here
+    from props.c02 import FLAGS as WRAP_FLAGS
+except Exception:  # pragma: no cover
+    WRAP_FLAGS = "00000000"
 STRIPNL = int(os.environ.get("VERIF_C17_STRIPNL", "0"))          # 1: get_lexer_by_name(name) keeps Pygments' stripnl=True; 0: repaired (stripnl=False; fix 92fb879)
+RANGE_POP = int(os.environ.get("VERIF_C17_RANGE_POP", "1"))      # 1: `text.split("\n")` / guides `.split("\n")`: a blank line that ends the range is lost, an empty selection with guides shows a row; 0: repaired
 SKIP_RAISES = int(os.environ.get("VERIF_C17_SKIP_RAISES", "0"))  # 1: bare next(tokens) in tokens_to_spans -> RuntimeError past the end; 0: repaired (break; fix 1d638e8)
 
 GUIDE = "│"
@@ -59,6 +65,20 @@ def tokens_for(name, src):
     return _TOK_CACHE[key]
 
 
+_TYPED_CACHE = {}
+
+
+def typed_tokens_for(name, src):
+    """(token type, text) pairs the lexer returns for `src` (None when the lexer does not exist)."""
+    key = (name, src)
+    if key not in _TYPED_CACHE:
+        lx = lexer_for(name)
+        _TYPED_CACHE[key] = None if lx is None else list(lx.get_tokens(src))
+        if len(_TYPED_CACHE) > 50000:
+            _TYPED_CACHE.clear()
+    return _TYPED_CACHE[key]
+
+
 def pyg_pre(src, stripnl):
     """Pygments Lexer._preprocess_lexer_input for str input with the options rich leaves at their defaults
     (written from the Pygments documentation: BOM, newline normalisation, stripnl, ensurenl)."""
@@ -76,12 +96,12 @@ class Case:
     """One Syntax + console configuration."""
 
     __slots__ = ("code", "lexer", "theme", "bg", "line_numbers", "start_line", "line_range", "highlight", "code_width",
-                 "tab_size", "word_wrap", "indent_guides", "width", "no_wrap", "legacy", "ascii", "color_system")
+                 "tab_size", "word_wrap", "indent_guides", "width", "no_wrap", "legacy", "ascii", "color_system", "dedent")
 
     def __init__(self, **kw):
         d = dict(code="", lexer="python", theme="ansi_dark", bg=None, line_numbers=True, start_line=1, line_range=None,
                  highlight=(), code_width=None, tab_size=4, word_wrap=False, indent_guides=False, width=60, no_wrap=False,
-                 legacy=False, ascii=False, color_system=None)
+                 legacy=False, ascii=False, color_system=None, dedent=False)
         d.update(kw)
         for k, v in d.items():
             setattr(self, k, v)
@@ -98,7 +118,12 @@ class Case:
         return Syntax(self.code, self.lexer, theme=self.theme, line_numbers=self.line_numbers, start_line=self.start_line,
                       line_range=self.line_range, highlight_lines=set(self.highlight), code_width=self.code_width,
                       tab_size=self.tab_size, word_wrap=self.word_wrap, background_color=self.bg,
-                      indent_guides=self.indent_guides)
+                      indent_guides=self.indent_guides, dedent=self.dedent)
+
+    @property
+    def shown(self):
+        """The text that is shown: textwrap.dedent(code) when dedent is on (standard library, taken as given)."""
+        return textwrap.dedent(self.code) if self.dedent else self.code
 
     @property
     def pad(self):
@@ -141,7 +166,7 @@ def enc_range(r):
 def opts_fields(c):
     return [enc_bool(c.line_numbers), c.start_line, enc_range(c.line_range), " ".join(str(h) for h in sorted(set(c.highlight))),
             enc_opt(c.code_width), c.tab_size, enc_bool(c.word_wrap), enc_bool(c.indent_guides), c.width, enc_bool(c.no_wrap),
-            enc_bool(c.legacy), enc_bool(c.ascii), enc_bool(c.pad)]
+            enc_bool(c.legacy), enc_bool(c.ascii), enc_bool(c.pad), ("=" + enc_str(c.shown)) if c.dedent else "-"]
 
 
 def representable(s):
@@ -214,7 +239,11 @@ def body_matches(bodies, line, w, pad, guides, word_wrap, no_crop):
     got = "".join("".join(b.split()) for b in bodies)
     want = "".join(line.split())
     if guides:
-        got = got.lstrip(GUIDE)  # guides folded onto continuation rows; sources never start a line with the guide character
+        # guide characters stand where the source has leading blanks (absent from `want`): they can only be a prefix of `got`
+        k = len(line) - len(line.lstrip(" "))
+        extra = got[: len(got) - len(want)] if len(got) >= len(want) else None
+        ok = extra is not None and got.endswith(want) and set(extra) <= {GUIDE} and len(extra) <= k
+        return None if ok else "word wrap lost or changed non-blank characters"
     return None if got == want else "word wrap lost or changed non-blank characters"
 
 
@@ -240,6 +269,17 @@ def parse_numbered(rows, gutter_len=None, row_re=None):
     return out, widths
 
 
+class Why(str):
+    """A failure reason that carries the slug of a narrowly recognised shape."""
+    slug = None
+
+
+def why_slug(text, slug):
+    w = Why(text)
+    w.slug = slug
+    return w
+
+
 def expected_selection(P, start_line, line_range):
     """[(number, line)] the statement asks for: all lines, or the range clipped to the lines that exist."""
     numbered = [(start_line + i, l) for i, l in enumerate(P)]
@@ -259,7 +299,8 @@ def eval_numbered(rows, P, c, w):
     want = expected_selection(P, c.start_line, c.line_range)
     guides = c.indent_guides and not c.ascii
     if guides and not want and len(parsed) == 1 and all(set(b) <= {" "} for b in parsed[0][2]):
-        return None  # quirk Q2: with indent guides an empty selection is shown as one blank row (Text.join([]).split() == [""])
+        # `Text("\n").join([]).with_indent_guides().split("\n") == [""]`: a row under a number no source line has
+        return why_slug("an empty selection is shown as one blank row numbered %d" % parsed[0][0], "syntax-guides-empty-selection-shows-row")
     if len(parsed) > len(want):
         return "%d numbered rows shown, the source/range has only %d" % (len(parsed), len(want))
     no_crop = c.no_wrap and not c.word_wrap
@@ -274,6 +315,12 @@ def eval_numbered(rows, P, c, w):
     missing = want[len(parsed):]
     if any(not blank(l) for _, l in missing):
         return "line %d (%r) of the selection is not shown" % (missing[0][0], [l for _, l in missing if not blank(l)][0])
+    if missing:
+        # blank lines may only be missing "at the very end": nothing but blank lines may follow the last shown line in the SOURCE
+        first_missing = missing[0][0] - c.start_line  # 0-based index into P
+        if any(not blank(l) for l in P[first_missing:]):
+            return why_slug("blank line %d ends the selected range but not the source, and is not shown (%d of %d selected lines shown)"
+                            % (missing[0][0], len(parsed), len(want)), "syntax-range-drops-trailing-blank-line")
     return None
 
 
@@ -307,7 +354,7 @@ def code_width_of(c):
 def evaluate(ctx, c, res, toks):
     """Direct evaluation of the statement on one rendered case."""
     site = "Syntax.__rich_console__"
-    if not is_plain_source(c.code):
+    if not is_plain_source(c.shown):
         ctx.note("direct:skipped-control-chars-or-bom")
         return
     if c.tab_size == 0 and c.indent_guides:
@@ -323,12 +370,12 @@ def evaluate(ctx, c, res, toks):
     if c.word_wrap and w < 2:
         ctx.note("direct:skipped-word-wrap-width<2")  # a wide character cannot be folded into one cell (C02 starts at width 2)
         return
-    P = source_lines(c.code, c.tab_size)
+    P = source_lines(c.shown, c.tab_size)
     found = toks is not None
 
     def stripped_variant():
         # what the statement would say about the same source without its leading / trailing newlines
-        core = c.code.expandtabs(c.tab_size).replace("\r\n", "\n").replace("\r", "\n").strip("\n")
+        core = c.shown.expandtabs(c.tab_size).replace("\r\n", "\n").replace("\r", "\n").strip("\n")
         return core.split("\n")
 
     if res[0] == "err":
@@ -339,19 +386,21 @@ def evaluate(ctx, c, res, toks):
             if a - 1 > have:
                 # the skip loop ran past the text: because the range starts beyond the source,
                 # or because stripnl removed leading/trailing blank lines the range counts on
-                have_unstripped = pyg_pre(c.code.expandtabs(c.tab_size), False).count("\n")
+                have_unstripped = pyg_pre(c.shown.expandtabs(c.tab_size), False).count("\n")
                 finding = ("syntax-range-start-beyond-end-raises" if a - 1 > have_unstripped else "syntax-stripnl-drops-blank-lines") if (STRIPNL or SKIP_RAISES) else None
         ctx.check(False, site, c.as_dict(), "rendering raised %s: %s" % (res[1], res[2]), finding=finding)
         return
     rows = res[1]
     why = eval_numbered(rows, P, c, w) if c.line_numbers else eval_plain(rows, P, c, w)
     finding = None
-    if why and STRIPNL and found and c.code.expandtabs(c.tab_size).replace("\r\n", "\n").replace("\r", "\n").startswith("\n"):
+    if why and STRIPNL and found and c.shown.expandtabs(c.tab_size).replace("\r\n", "\n").replace("\r", "\n").startswith("\n"):
         P2 = stripped_variant()
         why2 = eval_numbered(rows, P2, c, w) if c.line_numbers else eval_plain(rows, P2, c, w)
         if why2 is None:
             finding = "syntax-stripnl-drops-blank-lines"
-    ctx.check(why is None, site, c.as_dict(), why or "", finding=finding)
+    if why and finding is None and RANGE_POP and c.line_numbers and isinstance(why, Why):
+        finding = why.slug  # narrow: set only by the two shapes of the range defect (see eval_numbered)
+    ctx.check(why is None, site, c.as_dict(), str(why) if why else "", finding=finding)
 
 
 # --------------------------------------------------------------------------------------------- generators
@@ -359,10 +408,11 @@ ALPHA = ["a", " ", "\n", "\t", "あ"]
 
 PY_LINES = ["x = 1", "def f(a):", "    return a + 1", "\tif x:", "\t\tpass", "# comment あい", 'print("héllo")', "class A:",
             "    def m(self):", "        raise ValueError('boom')", "  ", "", "    ", "y = [1,\t2]", "s = '''", "'''",
-            "long_name = " + "+".join(["value"] * 14), "z = 'x\u0300y'", "    # 注释 wide ｗｉｄｅ", "\t", "if True: pass  # t\tab"]
+            "long_name = " + "+".join(["value"] * 14), "z = 'x\u0300y'", "    # 注释 wide ｗｉｄｅ", "\t", "if True: pass  # t\tab",
+            "  │ x = 1", "│", "    │", "│   y", "        │   z = '│'"]
 JSON_LINES = ["{", '  "a": [1, 2, 3],', '  "あ": null,', "}", "", '\t"k": "v"', "[", "]", '  "long": "' + "x" * 70 + '"']
 HTML_LINES = ["<html>", "  <body class='a'>", "\t<p>text あ</p>", "  </body>", "</html>", "", "<!-- c -->", "  <br/>   "]
-TEXT_LINES = ["plain text", "", "  indented", "\ttabbed", "あいう", "trailing   ", "a" * 50, "\u0300\u0300", "x\u200by"]
+TEXT_LINES = ["plain text", "", "  indented", "\ttabbed", "あいう", "trailing   ", "a" * 50, "\u0300\u0300", "x\u200by", "  │ tree", "│   │"]
 POOLS = {"python": PY_LINES, "json": JSON_LINES, "html": HTML_LINES, "text": TEXT_LINES, "no-such-lexer": PY_LINES + TEXT_LINES}
 
 
@@ -397,6 +447,9 @@ def rand_source(rng, lexer):
     lead = rng.choice([0, 0, 0, 1, 1, 2, 3, 5])
     trail = rng.choice([0, 1, 1, 1, 2, 3])
     nl = "\r\n" if rng.random() < 0.04 else "\n"
+    if lines and rng.random() < 0.15:  # a common margin (what `dedent` removes), blank lines left as they are or made of blanks
+        margin = rng.choice(["  ", "    ", "\t", " "])
+        lines = [(margin + l) if l.strip() else rng.choice([l, margin, ""]) for l in lines]
     code = "\n" * lead + nl.join(lines) + "\n" * trail
     r = rng.random()
     if r < 0.03:
@@ -445,7 +498,7 @@ def rand_case(rng, code, lexer):
                 start_line=start_line, line_range=rngc, highlight=hl, code_width=cwid,
                 tab_size=rng.choice([4, 4, 4, 1, 2, 3, 8, 0]), word_wrap=rng.random() < 0.25, indent_guides=rng.random() < 0.35,
                 width=width, no_wrap=rng.random() < 0.1, legacy=rng.random() < 0.1, ascii=rng.random() < 0.1,
-                color_system=rng.choice([None, None, "truecolor", "standard"]))
+                color_system=rng.choice([None, None, "truecolor", "standard"]), dedent=rng.random() < 0.15)
 
 
 # --------------------------------------------------------------------------------------------- one case through both sides
@@ -456,7 +509,7 @@ def run_case(ctx, c, shape):
     if not representable(c.code):
         ctx.note("skipped:surrogate")
         return
-    src = c.code.expandtabs(c.tab_size)
+    src = c.shown.expandtabs(c.tab_size)
     toks = tokens_for(c.lexer, src)
     found = toks is not None
     if found:
@@ -464,16 +517,170 @@ def run_case(ctx, c, shape):
         ctx.note("lexer-contract:" + ("holds" if contract else "BROKEN"))
         ctx.check(contract, "lexer-contract", {"lexer": c.lexer, "code": src},
                   "concatenated Pygments tokens differ from the preprocessed input (stripnl=%d)" % STRIPNL)
-        ctx.case("syn_contract", [enc_str(c.code), c.tab_size, STRIPNL, enc_str_list(toks)], enc_bool(contract))
+        ctx.case("syn_contract", [enc_str(c.shown), c.tab_size, STRIPNL, enc_str_list(toks)], enc_bool(contract))
     res = render_rows(c.syntax(), c)
     if shape in ("random", "gutter") and len(HISTORY) < (420 if ctx.quick else 2600) and (shape == "gutter" or len(HISTORY) < (300 if ctx.quick else 2400)):
         HISTORY.append((c, res))
     ctx.note("result:" + (res[0] if res[0] == "ok" else res[1]))
     ctx.note(f"lexer:{c.lexer}")
     ctx.note("numbers:%s range:%s guides:%s wrap:%s" % (int(c.line_numbers), "y" if c.line_range else "n", int(c.indent_guides), int(c.word_wrap)))
-    ctx.case("syn_render", [enc_str(c.code), enc_bool(found), enc_str_list(toks or []), SKIP_RAISES] + opts_fields(c), enc_result(res),
+    ctx.case("syn_render", [enc_str(c.code), enc_bool(found), enc_str_list(toks or []), SKIP_RAISES, RANGE_POP, WRAP_FLAGS] + opts_fields(c), enc_result(res),
              shape=shape, sample=repr(c))
     evaluate(ctx, c, res, toks)
+    if shape in ("random", "gutter", "exhaustive") and ctx.rng.random() < 0.25:
+        end_to_end(ctx, c, res)
+    if shape in ("random", "gutter", "exhaustive", "exotic-leading-whitespace") and ctx.rng.random() < 0.35:
+        styles(ctx, c)
+
+
+def styles(ctx, c):
+    """Token styles.  (a) correspondence: `Syntax.highlight(code, range)` as a stream of (character, style id) against the
+    model fed the real (token text, style id) pairs; (b) direct evaluation on the rendered segments: every code character of
+    a shown line carries base + the style of the token it came from (+ the background override), padding carries the
+    background style — the oracle is built from the lexer's tokens and the theme, not from the model."""
+    from rich.console import Console
+    from rich.style import Style
+
+    syn = c.syntax()
+    src = c.shown.expandtabs(c.tab_size)
+    typed = typed_tokens_for(c.lexer, src)
+    found = typed is not None
+    theme = syn._theme
+    ids = {}
+
+    def sid(st):
+        return ids.setdefault(st, len(ids))
+
+    tok_styles = [theme.get_style_for_token(tt) for tt, _ in (typed or [])]
+    tok_ids = [sid(st) for st in tok_styles]
+    # ---- (a) Syntax.highlight
+    try:
+        text = syn.highlight(src, c.line_range)
+        plain = text.plain
+        arr = [0] * len(plain)
+        clash = False
+        for sp in text.spans:
+            if isinstance(sp.style, Style):
+                for i in range(max(sp.start, 0), min(sp.end, len(plain))):
+                    clash = clash or arr[i] != 0
+                    arr[i] = sid(sp.style) + 1
+        ctx.check(not clash, "Syntax.highlight(styles)", c.as_dict(), "two token spans cover the same character")
+        got = "ok:" + enc_str(plain) + "|" + " ".join(map(str, arr))
+    except RuntimeError:
+        got = "err:RuntimeError"
+    if representable(src):
+        ctx.case("syn_highlight_styles", [enc_str(src), enc_bool(found), enc_str_list([v for _, v in (typed or [])]), " ".join(map(str, tok_ids)),
+                                          enc_range(c.line_range), SKIP_RAISES], got, shape="found%d-range%s" % (found, "y" if c.line_range else "n"),
+                 sample="highlight styles " + repr(c))
+    # ---- (b) the rendered segments
+    w = code_width_of(c)
+    if (not is_plain_source(c.shown) or not c.line_numbers or (c.indent_guides and not c.ascii) or w < 1 or STRIPNL
+            or (c.line_range is not None and c.line_range[1] < 0)):
+        ctx.note("styles:direct-skipped")
+        return
+    console = Console(file=io.StringIO(), width=c.width, color_system=c.color_system, force_terminal=False, legacy_windows=False)
+    options = dataclasses.replace(console.options, no_wrap=c.no_wrap, legacy_windows=c.legacy, encoding="ascii" if c.ascii else "utf-8")
+    try:
+        segs = list(console.render(syn, options))
+    except Exception:
+        return
+    rows, cur = [], []
+    for sg in segs:
+        if sg.is_control:
+            continue
+        for ch in sg.text:
+            if ch == "\n":
+                rows.append(cur)
+                cur = []
+            else:
+                cur.append((ch, sg.style))
+    null = Style.null()
+    base = syn._get_base_style()
+    bg = Style.parse("on " + c.bg) if (c.bg is not None and found) else None
+    pad_style = null if base.transparent_background else base
+    # per-line token styles of the source (the lexer's text = the source, plus a final newline)
+    per_line, line = [], []
+    for st, (_tt, v) in zip(tok_styles, typed or []):
+        for ch in v:
+            if ch == "\n":
+                per_line.append(line)
+                line = []
+            else:
+                line.append(st)
+    per_line.append(line)
+    P = source_lines(c.shown, c.tab_size)
+    for cells in rows:
+        rtext = "".join(ch for ch, _ in cells)
+        m = ROW_RE.match(rtext)
+        if not m:
+            continue
+        num = int(m.group(3))
+        idx = num - c.start_line
+        glen = len(m.group(1) + m.group(2) + m.group(3)) + 1
+        if not (0 <= idx < len(P)) or cell_len(P[idx]) > w or len(P[idx]) > w:
+            continue
+        line = P[idx]
+        body = cells[glen:]
+        if "".join(ch for ch, _ in body[: len(line)]) != line:
+            continue  # the characters are the other checks' business
+        for j, (ch, st) in enumerate(body):
+            if j < len(line):
+                parts = [base] + ([per_line[idx][j]] if found and idx < len(per_line) and j < len(per_line[idx]) else []) + ([bg] if bg else [])
+                want = Style.combine(parts)
+            else:
+                want = pad_style
+            if (st or null) != (want or null):
+                ctx.check(False, "Syntax(rendered styles)", c.as_dict(),
+                          "row numbered %d, column %d (%r): style %r, the token/background asks for %r" % (num, j, ch, str(st), str(want)))
+                return
+    ctx.check(True, "Syntax(rendered styles)", None, "")
+
+
+def crop_cells(row, width):
+    """What cropping a row to `width` cells leaves (rich.cells.set_cell_size is C13's subject; used as a device)."""
+    from rich.cells import set_cell_size
+
+    return row if cell_len(row) <= width else set_cell_size(row, width)
+
+
+def end_to_end(ctx, c, res):
+    """(a) `Console.print(syntax)` — everything below the print-time crop — writes the rows `console.render` yields, each
+    cropped to the console width; (b) `__rich_measure__` agrees with the model, and the C09 clause 'rendering at the reported
+    maximum fits' is observed (it is not part of C17's statement: counted, not judged)."""
+    from rich.console import Console
+
+    syn = c.syntax()
+    console = Console(file=io.StringIO(), width=c.width, color_system=c.color_system, force_terminal=False, legacy_windows=False)
+    try:
+        m = syn.__rich_measure__(console, c.width)
+        ctx.case("syn_measure", [enc_str(c.code), enc_bool(c.line_numbers), c.start_line, enc_opt(c.code_width), c.width],
+                 "%d,%d" % (m.minimum, m.maximum), shape="numbers%d-cw%s" % (c.line_numbers, "y" if c.code_width is not None else "n"))
+        if res[0] == "ok" and m.maximum >= 1 and not c.no_wrap:
+            c2 = Case(**{**c.as_dict(), "width": m.maximum})
+            r2 = render_rows(c2.syntax(), c2)
+            if r2[0] == "ok":
+                over = any(cell_len(r) > m.maximum for r in r2[1])
+                ctx.note("measure(C09 clause, observed):render-at-maximum-%s%s" % ("OVERFLOWS" if over else "fits",
+                         "-numbers+code_width" if (c.line_numbers and c.code_width is not None) else ""))
+    except Exception as e:
+        ctx.check(False, "Syntax.__rich_measure__", c.as_dict(), "measure raised %s: %s" % (type(e).__name__, e))
+    if c.legacy or c.ascii or res[0] != "ok":
+        return
+    rows = res[1]
+    if any(cell_len(r) > c.width and any(cell_len(ch) == 0 for ch in r) for r in rows):
+        ctx.note("print:skipped-zero-width-at-crop")
+        return
+    try:
+        console.print(syn, no_wrap=True if c.no_wrap else None)
+    except Exception as e:
+        ctx.check(False, "Console.print(Syntax)", c.as_dict(), "print raised %s: %s although render did not" % (type(e).__name__, e))
+        return
+    out = ANSI_RE.sub("", console.file.getvalue())
+    got = out.split("\n")
+    got = got[:-1] if got and got[-1] == "" else got
+    want = [crop_cells(r, c.width) for r in rows]
+    ctx.check(got == want, "Console.print(Syntax)", c.as_dict(),
+              "printed rows differ from the rendered rows cropped to the console width: printed %r, expected %r" % (got[:6], want[:6]))
 
 
 def helper_correspondence(ctx, rng):
@@ -511,11 +718,17 @@ def helper_correspondence(ctx, rng):
     combos = list(itertools.product(lines_alpha, repeat=2)) + [tuple(rng.choice(lines_alpha) for _ in range(rng.randint(1, 6))) for _ in range(400 if ctx.quick else 4000)]
     for ls in [()] + combos:
         for ts in (0, 1, 2, 4):
+            # both compositions syntax.py has used around with_indent_guides (they are Text-level facts, whatever /repo contains)
             try:
                 got = "ok:" + enc_str_list([l.plain for l in Text("\n").join([Text(l) for l in ls]).with_indent_guides(ts).split("\n")])
             except ZeroDivisionError:
                 got = "err:ZeroDivisionError"
-            ctx.case("syn_guides", [ts, enc_str_list(list(ls))], got, shape=f"ts{ts}")
+            ctx.case("syn_guides", [ts, enc_str_list(list(ls)), 1], got, shape=f"ts{ts}-pop")
+            try:
+                got = "ok:" + enc_str_list([l.plain for l in (Text("\n").join([Text(l) for l in ls]) + "\n").with_indent_guides(ts).split("\n", allow_blank=True)] if ls else [])
+            except ZeroDivisionError:
+                got = "err:ZeroDivisionError"
+            ctx.case("syn_guides", [ts, enc_str_list(list(ls)), 0], got, shape=f"ts{ts}-keep")
     # Python slicing lines[lo:hi]
     for n in range(0, 6):
         ls = [str(i) for i in range(n)]
@@ -548,7 +761,7 @@ def fit_correspondence(ctx, rng):
                     width = w + (4 if ln else 1)
                     c = Case(code=s, lexer="no-such-lexer", theme=pad_theme, line_numbers=ln, width=width)
                     res = render_rows(c.syntax(), c)
-                    ctx.case("syn_render", [enc_str(c.code), "0", enc_str_list([]), SKIP_RAISES] + opts_fields(c), enc_result(res),
+                    ctx.case("syn_render", [enc_str(c.code), "0", enc_str_list([]), SKIP_RAISES, RANGE_POP, WRAP_FLAGS] + opts_fields(c), enc_result(res),
                              shape="fit", sample=repr(c))
                     evaluate(ctx, c, res, None)
     ctx.flush()
@@ -560,7 +773,7 @@ def syntax_cases(ctx, rng):
     srcs = list(all_strings(ALPHA, maxlen))
     for s in srcs:
         n = s.count("\n") + 1
-        ranges = [None, (1, n), (2, n + 1), (n, n), (n + 1, n + 2), (n + 2, n + 3), (0, 1)]
+        ranges = [None, (1, n), (2, n + 1), (n, n), (n + 1, n + 2), (n + 2, n + 3), (0, 1), (1, max(n - 1, 1)), (2, 2), (1, 2)]
         for lexer in ("python", "no-such-lexer"):
             for r in ranges:
                 c = Case(code=s, lexer=lexer, line_range=r, start_line=rng.choice([1, 1, 9, 99]), highlight=(rng.randint(1, 3),),
@@ -569,8 +782,9 @@ def syntax_cases(ctx, rng):
         c = Case(code=s, lexer=rng.choice(["text", "json", "html"]), line_numbers=False, line_range=rng.choice([None, (1, 1), (2, 3)]),
                  theme=rng.choice(["ansi_dark", "monokai"]), width=rng.choice([30, 8]))
         run_case(ctx, c, "exhaustive-plain")
-        c = Case(code=s, lexer="python", indent_guides=True, tab_size=rng.choice([1, 2, 4]), line_range=rng.choice([None, (1, n), (1, max(n - 1, 1))]), width=30)
-        run_case(ctx, c, "exhaustive-guides")
+        for r in (None, (1, n), (1, max(n - 1, 1)), (2, 3), (n + 2, n + 4)):
+            c = Case(code=s, lexer="python", indent_guides=True, tab_size=rng.choice([1, 2, 4]), line_range=r, width=30)
+            run_case(ctx, c, "exhaustive-guides")
     ctx.flush()
     # (1b) every non-ASCII / control member of str.isspace() at the start of a line, alone and mixed with blanks and tabs,
     #      followed by text or by nothing, between ordinarily indented lines — with indent guides on and off
@@ -584,6 +798,17 @@ def syntax_cases(ctx, rng):
                                  line_numbers=True, line_range=rng.choice([None, None, (2, 5), (1, 6)]), highlight=(2,), width=rng.choice([40, 60]),
                                  word_wrap=rng.random() < 0.15)
                         run_case(ctx, c, "exotic-leading-whitespace")
+    ctx.flush()
+    # (1c) cropping THROUGH zero-width characters (Segment.adjust_line_length crops the segment at the edge, not the line):
+    #      every string <= 3 over {a, combining grave, wide, blank} after an indent, widths 1..4, lexers that cut the line
+    #      into different segments, indent guides on and off
+    for t in all_strings(["a", "\u0300", "あ", " ", "="], 3):
+        for wdt in (1, 2, 3, 4):
+            for lexer in ("python", "text", "no-such-lexer"):
+                for guides in (False, True):
+                    c = Case(code="  " + t + "\n" + t + "x\u0300\u0300y", lexer=lexer, code_width=wdt, indent_guides=guides, tab_size=2,
+                             theme=rng.choice(["ansi_dark", "monokai"]), width=40, highlight=(1,))
+                    run_case(ctx, c, "zero-width-crop")
     ctx.flush()
     # (2) structured random
     n_rand = 2000 if ctx.quick else 60000
@@ -639,6 +864,7 @@ def history_cases(ctx, rng):
         reused.word_wrap = c.word_wrap
         reused.background_color = c.bg
         reused.indent_guides = c.indent_guides
+        reused.dedent = c.dedent
         reused._theme = Syntax.get_theme(c.theme)
         again2 = render_rows(reused, c)
         ctx.check(again2 == res, "Syntax(reused object)", c.as_dict(),
@@ -669,7 +895,7 @@ def from_path_cases(ctx, rng):
             try:
                 syn = Syntax.from_path(path, theme=c.theme, line_numbers=c.line_numbers, line_range=c.line_range, start_line=c.start_line,
                                        highlight_lines=set(c.highlight), code_width=c.code_width, tab_size=c.tab_size,
-                                       word_wrap=c.word_wrap, background_color=c.bg, indent_guides=c.indent_guides)
+                                       word_wrap=c.word_wrap, background_color=c.bg, indent_guides=c.indent_guides, dedent=c.dedent)
             except Exception as e:
                 ctx.check(False, "Syntax.from_path", {"path_ext": ext, "code": code}, "from_path raised %s: %s" % (type(e).__name__, e))
                 continue
@@ -677,18 +903,18 @@ def from_path_cases(ctx, rng):
                        highlight=tuple(sorted(syn.highlight_lines)), code_width=syn.code_width, tab_size=syn.tab_size, word_wrap=syn.word_wrap,
                        indent_guides=syn.indent_guides, bg=syn.background_color, dedent=syn.dedent)
             want = dict(code=code, line_numbers=c.line_numbers, line_range=c.line_range, start_line=c.start_line, highlight=tuple(sorted(set(c.highlight))),
-                        code_width=c.code_width, tab_size=c.tab_size, word_wrap=c.word_wrap, indent_guides=c.indent_guides, bg=c.bg, dedent=False)
+                        code_width=c.code_width, tab_size=c.tab_size, word_wrap=c.word_wrap, indent_guides=c.indent_guides, bg=c.bg, dedent=c.dedent)
             ctx.check(got == want, "Syntax.from_path", {"path_ext": ext, "case": c.as_dict()},
                       "from_path does not forward the file content / options unchanged: %r" % {k: (got[k], want[k]) for k in got if got[k] != want[k]})
             ctx.note("from_path:lexer=%s" % syn.lexer_name)
             # render what from_path built, judge it against the FILE's lines
             c.lexer = syn.lexer_name
             c.code = syn.code
-            src = c.code.expandtabs(c.tab_size)
+            src = c.shown.expandtabs(c.tab_size)
             toks = tokens_for(c.lexer, src)
             res = render_rows(syn, c)
             if representable(c.code):
-                ctx.case("syn_render", [enc_str(c.code), enc_bool(toks is not None), enc_str_list(toks or []), SKIP_RAISES] + opts_fields(c), enc_result(res),
+                ctx.case("syn_render", [enc_str(c.code), enc_bool(toks is not None), enc_str_list(toks or []), SKIP_RAISES, RANGE_POP, WRAP_FLAGS] + opts_fields(c), enc_result(res),
                          shape="from_path", sample=repr(c))
             c2 = Case(**{**c.as_dict(), "code": code})
             evaluate(ctx, c2, res, toks)
@@ -710,7 +936,7 @@ def gen_module(rng):
     nl_after = rng.choice(["\n", "\n", "", "\n\n\n"])
     ind = rng.choice(["    ", "\t", "  "])
     filler = ["a = 1", "b = 'あいう'  # wide", "", "c = [1, 2,\t3]", "# comment", "d = " + " + ".join(["1"] * 50), "  ".rstrip(), "e = {'k': 'v'}"]
-    pre = [rng.choice(filler) for _ in range(rng.choice([0, 0, 1, 2, 5, 9, 15]))]
+    pre = [rng.choice(filler) for _ in range(rng.choice([0, 0, 1, 2, 5, 9, 15] * 4 + [98, 120, 400]))]  # now and then a long file (gutter of 3-4 digits)
     if rng.random() < 0.4:  # context lines starting with non-ASCII whitespace: legal inside a string literal
         k = rng.randrange(len(pre) + 1)
         ws = [w for w in EXOTIC_WS if w not in ("\x1c", "\x1d", "\x1e", "\x1f", "\x85", "\u2028", "\u2029")]
@@ -732,14 +958,14 @@ def gen_module(rng):
     return src, lead, shape
 
 
-def run_module(path, src):
-    """Execute the generated module; returns sys.exc_info() of the exception it raises."""
-    code = compile(src, path, "exec")
+from lib_c17_exec import compile_only, run_module, run_pair  # noqa: E402  (their frames appear in every rendered traceback)
+
+
+def try_read(path):
     try:
-        exec(code, {"__name__": "c17_generated"})
-    except Exception:
-        return sys.exc_info()
-    return None
+        return read_now(path)
+    except OSError:
+        return None
 
 
 ANSI_RE = re.compile(r"\x1b\[[0-9;]*m")
@@ -797,7 +1023,7 @@ def traceback_cases(ctx, rng):
     os.makedirs(root)
     rtb.Syntax = RecordingSyntax
 
-    def render_and_check(info, src, path, generated, site, label):
+    def render_and_check(info, src, path, generated, site, label, show_locals=False):
         """Render one traceback, compare it with the files as they are NOW.  `generated` = paths written by this harness."""
         extra = rng.choice([3, 3, 0, 1, 2, 5, 10])
         ww = rng.random() < 0.2
@@ -806,13 +1032,14 @@ def traceback_cases(ctx, rng):
         theme = rng.choice([None, None, "monokai", "ansi_light", "default"])  # interleaved: theme/style caches must not leak characters
         ctx.note(f"tb:extra={extra}")
         del recorded[:]
-        tb = rtb.Traceback.from_exception(*info, width=width, extra_lines=extra, word_wrap=ww, indent_guides=ig, theme=theme)
+        tb = rtb.Traceback.from_exception(*info, width=width, extra_lines=extra, word_wrap=ww, indent_guides=ig, theme=theme, show_locals=show_locals)
+        ctx.note(f"tb:show_locals={int(show_locals)}")
         console = Console(file=io.StringIO(), width=200, color_system=rng.choice([None, None, "truecolor"]), force_terminal=False, legacy_windows=False)
         stacks = list(reversed(tb.trace.stacks))  # the order they are rendered in
         frames = [fr for st in stacks for fr in st.frames]
         inp = {"label": label, "source": src, "path": path, "extra_lines": extra, "word_wrap": ww, "indent_guides": ig, "width": width, "theme": theme,
-               "frames": [(fr.filename, fr.lineno) for fr in frames],
-               "files_now": {g: read_now(g) for g in generated}}
+               "frames": [(fr.filename, fr.lineno) for fr in frames], "show_locals": show_locals,
+               "files_now": {g: try_read(g) for g in generated}}
         # the reference must be fresh: nothing below may come from a cache filled by an earlier render
         linecache.clearcache()
         importlib.invalidate_caches()
@@ -823,13 +1050,13 @@ def traceback_cases(ctx, rng):
         except Exception as e:
             out, err = "", e
         # ---- correspondence: the Syntax built for each frame (code, options), and its rendering
-        readable = [fr for fr in frames if not fr.filename.startswith("<")]
+        readable = [fr for fr in frames if not fr.filename.startswith("<") and try_read(fr.filename) is not None]
         if err is None and len(recorded) == len(readable):
             k = 0
             for st in stacks:
                 ids, codes = [], []
                 for fr in st.frames:
-                    if fr.filename.startswith("<"):
+                    if fr.filename.startswith("<") or try_read(fr.filename) is None:
                         continue
                     syn = recorded[k][0]
                     k += 1
@@ -841,7 +1068,7 @@ def traceback_cases(ctx, rng):
                     if fr.filename in generated:
                         ids.append(generated.index(fr.filename))
                         codes.append(syn.code)
-                if ids and all(representable(c) for c in codes):
+                if ids and all(representable(c) for c in codes) and all(try_read(g) is not None for g in generated):
                     ctx.case("tb_codes", [enc_str_list([read_now(g) for g in generated]), " ".join(map(str, ids))], enc_str_list(codes),
                              shape="files%d-frames%d" % (len(generated), min(len(ids), 4)), sample=f"read_code {label}")
         for syn, a, k_ in recorded:
@@ -865,6 +1092,38 @@ def traceback_cases(ctx, rng):
             return
         why, finding = eval_traceback(out, frames, extra, ww, ig, src, path)
         ctx.check(why is None, site, inp, why or "", finding=finding)
+
+    def edge_round(i):
+        """Frames whose file changed under the traceback: gone, emptied, too short for the frame's line; locals shown."""
+        kind = rng.choice(["locals", "locals", "gone", "short", "empty", "locals-pair", "gone-lib", "short-lib"])
+        ctx.note("tb-edge:" + kind)
+        if kind in ("locals", "gone", "short", "empty"):
+            src, lead, shape = gen_module(rng)
+            path = os.path.join(root, "edge_%d.py" % (i % 3))
+            with open(path, "w", encoding="utf-8", newline="") as f:
+                f.write(src)
+            info = run_module(path, src)
+            gen = [path]
+        else:
+            lib_src, src, call = gen_pair(rng)
+            path, lib_path = os.path.join(root, "edge_main.py"), os.path.join(root, "edge_lib.py")
+            for pth, text in ((lib_path, lib_src), (path, src)):
+                with open(pth, "w", encoding="utf-8", newline="") as f:
+                    f.write(text)
+            info = run_pair(lib_path, lib_src, path, src)
+            gen = [path, lib_path]
+        if info is None:
+            raise RuntimeError("generated module did not raise")
+        victim = gen[-1]
+        if kind.startswith("gone"):
+            os.remove(victim)
+        elif kind.startswith("short"):
+            keep = read_now(victim).split("\n")
+            with open(victim, "w", encoding="utf-8", newline="") as f:
+                f.write("\n".join(keep[: rng.choice([0, 1, 1, 2, 3])]) + rng.choice(["", "\n"]))
+        elif kind == "empty":
+            open(victim, "w").close()
+        render_and_check(info, src, path, gen, "Traceback(edge cases)", "edge %s round %d" % (kind, i), show_locals=kind.startswith("locals") or rng.random() < 0.2)
 
     try:
         # ---- (1) independent modules, fresh path each
@@ -902,17 +1161,16 @@ def traceback_cases(ctx, rng):
                 f.write(lib_src)
             with open(main_path, "w", encoding="utf-8", newline="") as f:
                 f.write(main_src)
-            ns = {"__name__": "c17_generated"}
-            info = None
-            try:
-                exec(compile(lib_src, lib_path, "exec"), ns)
-                exec(compile(main_src, main_path, "exec"), ns)
-            except Exception:
-                info = sys.exc_info()
+            info = run_pair(lib_path, lib_src, main_path, main_src)
             if info is None:
                 raise RuntimeError("generated module pair did not raise")
             ctx.note("tb-history:pair-" + call)
             render_and_check(info, main_src, main_path, [main_path, lib_path], "Traceback(history of renders)", "reused-paths round %d" % i)
+        # ---- (3) frames whose file is gone / shorter than the frame's line number / empty; show_locals
+        for i in range(40 if ctx.quick else 500):
+            edge_round(i)
+        # ---- (4) SyntaxError stacks: the offending line and the offset marker
+        syntax_error_cases(ctx, rng, root, rtb)
     finally:
         rtb.Syntax = RealSyntax
         shutil.rmtree(root, ignore_errors=True)
@@ -920,6 +1178,80 @@ def traceback_cases(ctx, rng):
             os.rmdir(TB_ROOT)
         except OSError:
             pass
+    ctx.flush()
+
+
+def strip_locals(srows):
+    """Remove the `locals` panel of a frame (below the excerpt, or to its right when Columns finds room)."""
+    for i, r in enumerate(srows):
+        if "╭" in r and " locals " in r:
+            col = cell_len(r[: r.index("╭")])
+            if col == 0:
+                return srows[:i]
+            out = list(srows[:i])
+            for r2 in srows[i:]:
+                acc, k = 0, 0
+                while k < len(r2) and acc < col:
+                    acc += cell_len(r2[k])
+                    k += 1
+                cut = r2[:k].rstrip(" ")
+                if cut:
+                    out.append(cut)
+            return out
+    return srows
+
+
+def syntax_error_cases(ctx, rng, root, rtb):
+    """A SyntaxError stack has no frame in the offending file; rich shows `filename:lineno`, the offending line and a
+    marker under the reported offset.  Checked: that line is the file's line `lineno` (right-stripped), the marker stands
+    under character `offset` of it (Python's offset, 1-based), whatever the leading blank lines."""
+    from rich.console import Console
+
+    bad = ["b = (1 +", "   c = 2", "d = 1 +* 2", "e = 'あいう' +* 'x'", "f(\t1,, 2)", "if True print(1)", "x = [1, 2", "class :", "g = 1 $ 2"]
+    for i in range(30 if ctx.quick else 300):
+        lead = rng.choice([0, 0, 1, 2, 5, 9])
+        pre = [rng.choice(["a = 1", "", "# c", "z = 'あ'"]) for _ in range(rng.choice([0, 1, 3, 8]))]
+        line = rng.choice(bad)
+        src = "\n" * lead + "\n".join(pre + [line] + ["k = 3"] * rng.choice([0, 1, 4])) + rng.choice(["\n", ""])
+        path = os.path.join(root, "se_%d.py" % (i % 2))
+        with open(path, "w", encoding="utf-8", newline="") as f:
+            f.write(src)
+        info = compile_only(path, src)
+        if info is None:
+            continue
+        exc = info[1]
+        tb = rtb.Traceback.from_exception(*info, width=rng.choice([100, 140]), extra_lines=rng.choice([0, 3]))
+        console = Console(file=io.StringIO(), width=200, color_system=None, force_terminal=False, legacy_windows=False)
+        inp = {"source": src, "path": path, "lineno": exc.lineno, "offset": exc.offset, "text": exc.text}
+        try:
+            console.print(tb)
+        except Exception as e:
+            ctx.check(False, "Traceback(syntax error)", inp, "printing the traceback raised %s: %s" % (type(e).__name__, e))
+            continue
+        rows = [m.group(1).rstrip(" ") for m in (BORDER_RE.match(r) for r in ANSI_RE.sub("", console.file.getvalue()).split("\n")) if m]
+        ctx.note("tb:syntax-error")
+        file_line = read_now(path).split("\n")[exc.lineno - 1] if exc.lineno and exc.lineno <= len(read_now(path).split("\n")) else None
+        head = " %s:%d" % (path, exc.lineno or 0)
+        why = None
+        if head not in rows:
+            why = "no `filename:lineno` row %r" % head
+        else:
+            k = rows.index(head)
+            shown = rows[k + 1] if k + 1 < len(rows) else ""
+            marker = rows[k + 2] if k + 2 < len(rows) else ""
+            text = (exc.text or "").rstrip()
+            off = min((exc.offset or 0) - 1, len(text))
+            if "\t" in text or any(cell_len(ch) != 1 for ch in text[: max(off, 0)]):
+                ctx.note("tb:syntax-error-marker-column-differs-from-cell-column")  # tabs are expanded / wide characters take two cells: the marker counts characters
+            if file_line is not None and exc.text is not None and exc.text.rstrip("\n") == file_line and shown != file_line.rstrip().expandtabs(8):
+                why = "the offending line is shown as %r, line %d of the file (tabs expanded) is %r" % (shown, exc.lineno, file_line.expandtabs(8))
+            elif shown != text.expandtabs(8):
+                why = "the offending line is shown as %r, the exception carries %r" % (shown, text)
+            elif marker != " " * max(off, 0) + "▲":
+                why = "the offset marker row is %r, offset %r of %r asks for column %d" % (marker, exc.offset, text, off)
+            ctx.case("tb_syntax_error", [enc_str(text), (exc.offset or 0)], enc_str_list([shown, marker]), shape="lead%d" % min(lead, 3),
+                     sample="syntax error %r offset %r" % (text, exc.offset))
+        ctx.check(why is None, "Traceback(syntax error)", inp, why or "")
     ctx.flush()
 
 
@@ -942,15 +1274,39 @@ def eval_traceback(out, frames, extra, ww, ig, src, path):
     if [(b[0], b[1]) for b in blocks] != want:
         return "frame headers %r differ from the traceback's frames %r" % ([(b[0], b[1]) for b in blocks], want), None
     for filename, lineno, _name, srows in blocks:
+        srows = strip_locals(srows)
         linecache.checkcache(filename)
         lines = linecache.getlines(filename)
         try:
-            now = read_now(filename).splitlines(True)
+            now = read_now(filename).split("\n")
+            if now and now[-1] == "":
+                now.pop()
+            now = [l + "\n" for l in now]
         except OSError:
+            # unreadable file: out of the statement's scope, but nothing may be presented as its source
+            if any(ROW_RE_STRIPPED.match(r) for r in srows):
+                return "frame %s:%d has no readable file, yet numbered source rows are shown: %r" % (filename, lineno, srows[:3]), None
             continue
         if [l.rstrip("\n") for l in lines] != [l.rstrip("\n") for l in now]:
             lines = now  # linecache did not notice a rewrite (same size and time stamp): the file itself is the reference
         if not lines or lineno > len(lines):
+            # the frame's line does not exist (any more): no row may be marked, and what is shown must be the file
+            parsed, _w = parse_numbered(srows, row_re=ROW_RE_STRIPPED) if srows else ([], None)
+            if parsed is None:
+                return "the excerpt of %s:%d (file shorter than the frame's line) has a malformed row" % (filename, lineno), None
+            P0 = [l.rstrip("\n").expandtabs(4) for l in lines] or [""]  # an empty file is shown as one empty line (as Syntax("") is)
+            for num, _m, bodies in parsed:
+                if num > len(P0):
+                    # with indent guides an empty selection is shown as one blank row (the range defect's second face);
+                    # under extra_lines=0 that row even carries the failing-line marker
+                    slug = "traceback-empty-selection-shows-row" if RANGE_POP and ig and len(parsed) == 1 and all(set(b) <= {" "} for b in bodies) else None
+                    return "a row (marked: %s) is shown under number %d, the file has only %d lines" % (_m, num, len(P0)), slug
+            if any(p[1] for p in parsed):
+                return "a row is marked as failing line %d but the file has only %d lines" % (lineno, len(lines)), None
+            for num, _m, bodies in parsed:
+                b0 = unguide(bodies[0], P0[num - 1]) if ig else bodies[0]
+                if cell_len(P0[num - 1]) <= 88 and not (ig and blank(P0[num - 1])) and b0.rstrip(" ") != P0[num - 1].rstrip(" "):
+                    return "context row %d shows %r, the file has %r" % (num, bodies, P0[num - 1]), None
             continue
         P = [l.rstrip("\n").expandtabs(4) for l in lines]
         c = Case(code="".join(lines), line_numbers=True, start_line=1, line_range=(lineno - extra, lineno + extra), highlight=(lineno,),
@@ -985,7 +1341,9 @@ def eval_traceback(out, frames, extra, ww, ig, src, path):
             text = "".join(lines)
             if STRIPNL and filename == path and (text.startswith("\n")):
                 finding = "traceback-stripnl-shifts-failing-line"
-            return why, finding
+            if finding is None and RANGE_POP and isinstance(why, Why):
+                finding = why.slug
+            return str(why), finding
     return None, None
 
 
@@ -1006,8 +1364,11 @@ def eval_numbered_stripped(parsed, P, c):
         b0 = unguide(bodies[0], wline) if guides else bodies[0]
         if cell_len(wline) <= 88 and not (len(bodies) == 1 and b0.rstrip(" ") == wline.rstrip(" ")):
             return "context row %d shows %r, the file has %r" % (num, bodies, wline)
-    if any(not blank(l) for _, l in want[len(parsed):]):
+    missing = want[len(parsed):]
+    if any(not blank(l) for _, l in missing):
         return "a non-blank line of the range is not shown"
+    if missing and any(not blank(l) for l in P[missing[0][0] - 1:]):
+        return why_slug("blank line %d ends the excerpt but not the file, and is not shown" % missing[0][0], "traceback-range-drops-trailing-blank-line")
     return None
 
 
@@ -1018,11 +1379,13 @@ def run(ctx):
         "the Pygments lexer is a parameter of the model; contract: concatenated token texts = Pygments' documented preprocessing "
         "(BOM removal, \\r\\n and \\r -> \\n, stripnl, ensurenl) of the tab-expanded code; evaluated on every case",
         "styles/themes never change characters: the model has no styles; `pad` (= background not transparent) is computed from the theme name",
-        "cell widths come from C13's model (generated table); zero-width characters in a line that must be cropped, lines that must be "
-        "folded by word wrap (C02's subject), code_width < 1, and BS/VT/FF reaching Text through a lexer answer `unmodelled`",
-        "the statement is evaluated on sources without BS/VT/FF/CR and without a byte-order mark; tab_size >= 1 when indent guides are on; "
-        "start_line >= 0; `dedent` is off (as in tracebacks)",
-        "sources containing the guide character U+2502 inside leading blanks are not generated",
+        "cell widths come from C13's model (generated table); word-wrapped lines are folded by C02/C05's Text.wrap model (imported read-only, "
+        "its variant flags taken from props.c02); `unmodelled` is left only for a line cropped through a zero-width character whose spans "
+        "were shifted by control-character stripping, or at code_width < 0",
+        "the statement is evaluated on shown texts without BS/VT/FF/CR and without a byte-order mark; tab_size >= 1 when indent guides are on; "
+        "start_line >= 0; textwrap.dedent is taken as given (its result is handed to the model)",
+        "styles are opaque ids in the model (up to Syntax.highlight); on rendered segments they are judged against Style.combine of the base "
+        "style, the theme's style of the token the character came from and the background override",
     ]
     helper_correspondence(ctx, rng)
     fit_correspondence(ctx, rng)
@@ -1041,6 +1404,9 @@ def run(ctx):
         "fresh paths, then as a HISTORY in one process over the same 3 paths rewritten between renders (single module / main+lib pair / chained "
         "exception; different leading blank lines, failing line, length), every render compared with the files read at that moment; "
         "every random Syntax case re-rendered later in shuffled order, fresh and through one reused Syntax object; "
+        "10 range shapes incl. ranges ENDING on interior blank lines; every non-ASCII/control whitespace at a line start; zero-width characters at "
+        "the crop edge x widths 1..4 x lexers x guides; dedent; Console.print and __rich_measure__ on a quarter of the cases, token styles on a third; "
+        "tracebacks with show_locals, files gone/emptied/shortened under the traceback, chained exceptions, SyntaxError stacks; "
         "distinct = distinct canonical requests" % (4 if ctx.quick else 5, ALPHA)
     )
 
@@ -1057,7 +1423,7 @@ def replay(ctx, case):
             inp["line_range"] = tuple(inp["line_range"])
         inp["highlight"] = tuple(inp.get("highlight") or ())
         c = Case(**inp)
-        toks = tokens_for(c.lexer, c.code.expandtabs(c.tab_size))
+        toks = tokens_for(c.lexer, c.shown.expandtabs(c.tab_size))
         res = render_rows(c.syntax(), c)
         print("rendered:", res)
         evaluate(ctx, c, res, toks)
@@ -1068,35 +1434,38 @@ def replay(ctx, case):
 
 
 MANIFEST = {
-    "text": "Lean 4 theorems (Props/C17.lean; no bound on source length, number of lines, widths, ranges or token streams) about an "
-    "executable model of Syntax.highlight / Syntax.__rich_console__ / Text.remove_suffix+split / with_indent_guides and of the options "
-    "Traceback._render_stack passes, for an ARBITRARY lexer meeting the contract `tokens concatenate to Pygments' preprocessing of the code`: "
-    "highlighting_keeps_characters (the highlighted text is the source, cut only after a whole line when a range is given); "
-    "range_selects_clipped / lines_are_source_lines / plain_lines_are_source_lines (rows are the tab-expanded source lines a..b clipped to the "
-    "lines that exist, numbered consecutively from start_line+max(0,a-1), up to <=2 empty lines missing at the very end); "
-    "numbers_are_line_numbers (row numbered N shows source line N-start_line, marked iff N in highlight_lines); gutter_wide_enough (every "
-    "number fits the column computed from the newline count; gutter has constant width, removing it leaves the code cell); "
-    "fitted_line_is_line (a line that fits is shown exactly + padding, a longer one is set_cell_size of it); guides_only_overdraw_indent; "
+    "text": "Lean 4 theorems (Props/C17.lean; no bound on source length, number of lines, widths, ranges, token streams or histories) about an "
+    "executable model of Syntax.highlight / Syntax.__rich_console__ / __rich_measure__ / Text.remove_suffix+split / with_indent_guides, of the "
+    "options and the per-call file cache of Traceback._render_stack and of _render_syntax_error, for an ARBITRARY lexer meeting the contract "
+    "`tokens concatenate to Pygments' preprocessing of the code`: highlighting_keeps_characters; highlight_styles_follow_tokens (every character "
+    "carries the style id of the token it came from, lines before a range start unstyled); range_selects_clipped (with a range the rows are "
+    "EXACTLY source lines a..b clipped to the lines that exist, blank lines that end the range included, numbered from start_line+max(0,a-1)); "
+    "lines_are_source_lines / plain_lines_are_source_lines (without a range all source lines, at most ONE empty line at the very end of the "
+    "source missing); rows_are_numbered_selection; numbers_are_line_numbers; gutter_wide_enough; fitted_line_is_line; "
+    "measure_maximum_fits_without_numbers + measure_maximum_one_short_with_numbers (the C09 clause for Syntax: holds without line numbers, fails "
+    "by one cell with line numbers and an explicit code_width — witness); guides_only_overdraw_indent (as many lines out as in); "
     "traceback_marks_failing_line (exactly one marked row, numbered lineno, showing line lineno, for every extra_lines / leading blank lines / "
-    "file length / indent guides); render_history_independent + stack_cache_transparent (for every history of renders the code a frame's Syntax "
-    "is built from is the file's content at the moment of that render; read_code's per-call cache is transparent; witness that a persistent "
-    "cache would show stale text). Proved for the repaired variant (stripnl=False; StopIteration guarded), which is what /repo contains now (fixes 92fb879, 1d638e8); `old_*` "
-    "witnesses (decide) show that the variant of rich 9.10.0 as found violated them. Tie: every run renders ~25k real Syntax objects (5 lexers incl. unknown, every option axis, bounded-exhaustive "
-    "sources <=4 over {a,space,newline,tab,wide}) through a real Console and compares all rows character for character with the model fed the "
-    "real Pygments token stream; helper functions (expandtabs, Pygments preprocessing, Text.split/remove_suffix, Syntax.highlight for all ranges, "
-    "indent guides, slices, str(n), _numbers_column_width) compared exhaustively on small alphabets; Syntax.from_path; 90 (quick; thorough 2,000) generated raising "
-    "modules rendered through Traceback and checked against the files; a HISTORY of tracebacks in one process over the same paths rewritten "
-    "between renders (single module, main+lib pair, chained exception), each compared with the files read at that moment, and every random "
-    "Syntax case re-rendered later in shuffled order both fresh and through one reused Syntax object (history independence); plus direct evaluation of the statement on rich's own output.",
-    "note": "PARTIAL where stated: (1) the Pygments lexer is a parameter — the contract is checked per case, not proved; (2) theorems assume a "
-    "clean source (no BS/VT/FF/CR, no BOM), range end >= 0, tab_size >= 1 with indent guides, start_line >= 0, dedent off; (3) word-wrapped "
-    "lines that do not fit (C02's subject), code_width < 1, cropping through zero-width characters and BS/VT/FF behind a lexer answer "
-    "`unmodelled` (direct evaluation still checks non-blank character preservation for folded lines); (4) styles/themes are outside the model "
-    "(they cannot change characters; all Pygments themes are rendered in the thorough tier); (5) trailing EMPTY lines of the source or of a "
-    "range may be missing (<=2; <=3 more with indent guides) and an empty selection with indent guides shows one blank row — both are modelled "
-    "quirks allowed by the statement's 'blank lines at the very end aside'. Trusted: Lean kernel; propext/Classical.choice/Quot.sound; the "
-    "harness; C13's cell-width model. Two genuine defects found in rich 9.10.0 as found, both repaired in /repo (fixes 92fb879, 1d638e8 = pending_fixes/C17-*.diff): stripnl=True "
-    "dropped leading blank lines (numbers shifted, tracebacks marked nothing or the wrong line); a line_range starting more than one line past "
-    "the end raised RuntimeError.",
+    "file length / indent guides); render_history_independent + stack_cache_transparent (what a traceback shows depends only on the files as "
+    "they are when it is rendered). Proved for the repaired variant; `old_*` witnesses (decide) for the three defects. Tie: every run renders "
+    "~30k real Syntax objects (5 lexers incl. unknown, every option axis incl. dedent, bounded-exhaustive sources <=4 over "
+    "{a,space,newline,tab,wide} x 10 range shapes, every non-ASCII/control whitespace at line starts, zero-width characters at the crop edge) "
+    "through a real Console and compares ALL rows character for character with the model fed the real Pygments token stream — word-wrapped "
+    "lines folded row by row through C02's Text.wrap model, cropped lines segment by segment; token style ids of Syntax.highlight compared per "
+    "character; helper functions compared exhaustively on small alphabets; Syntax.from_path; Console.print end to end; __rich_measure__; "
+    "generated raising modules through Traceback (fresh paths; histories over rewritten paths; files gone / emptied / too short; show_locals; "
+    "chained exceptions; SyntaxError stacks) checked against the files read at that moment; every case re-rendered later in shuffled order and "
+    "through one reused Syntax object; plus direct evaluation of the statement (characters AND styles) on rich's own output.",
+    "note": "PARTIAL where stated: (1) the Pygments lexer and textwrap.dedent are parameters (contract checked per case, not proved); (2) theorems "
+    "assume a clean shown text (no BS/VT/FF/CR, no BOM), range end >= 0, tab_size >= 1 with indent guides, start_line >= 0, and room to write a "
+    "row under word wrap; (3) the folding of word-wrapped lines is C02's model/theorems (used here row by row, not re-proved); the 5-15 of "
+    "~100k requests still answered `unmodelled` are lines cropped through a zero-width character whose spans were shifted by control-character "
+    "stripping, or code_width < 0 with such a line; (4) rendered styles are checked by direct evaluation (token styles from the real lexer and "
+    "theme), the model carries them only up to Syntax.highlight; (5) the one empty string a final newline leaves behind, and without a range one "
+    "empty last line of the source, may be missing — the statement's 'blank lines at the very end aside'; (6) not part of C17's statement, "
+    "observed only: __rich_measure__ reports a maximum one cell too small with line numbers + code_width; the SyntaxError offset marker counts "
+    "characters, not cells (tabs / wide characters shift it). Trusted: Lean kernel; propext/Classical.choice/Quot.sound; the harness; C13's "
+    "cell-width model; C02/C05's Text.wrap model. Three genuine defects found: stripnl=True drops leading blank lines and the bare next() past "
+    "the end raises (both fixed in /repo), and a blank line that ends a line_range is lost / an empty selection under indent guides shows a "
+    "(possibly marked) row (pending_fixes/C17-range-drops-trailing-blank-line.diff).",
     "design_ref": "DESIGN.md section 7 (C17) and section 8 (F13)",
 }
